@@ -2,8 +2,8 @@
 
 P (all byte values, all positions): BitWriter.write appends exactly one bit to the bit stream and keeps the
    representation invariant of the writer; BitReader.read returns the bit at the current position and
-   advances by one, raising BitIOError exactly at the end; write_number rejects exactly the numbers that do
-   not fit; the gate-type code tables are mutually inverse and _get_arity is what the decoder reads.
+   advances by one, raising BitIOError exactly at the end; write_number(n, k) for k in {0,1,2,3,7,8,9,12} on an arbitrary writer state rejects exactly the numbers
+   that do not fit and otherwise appends the k little-endian bits; the gate-type code tables are mutually inverse and _get_arity is what the decoder reads.
 B: whole bit strings / numbers, dictionary records, circuit round trips, database files (vlib/bounded/C16.py)."""
 import z3
 
@@ -130,37 +130,47 @@ class Read(Contract):
             yield ('no-other-raise', z3.BoolVal(False), {'raised': nme, 'witness': 'raises-' + nme})
 
 
-class WriteNumberRange(Contract):
-    """write_number(number, bits) raises BitIOError iff number is outside [0, 2^bits) (bits concrete 0..9; the
-    writing loop itself is the bounded layer's)"""
-    relpath, qualname = BIO, 'BitWriter.write_number'
+class WriteNumber(Write):
+    """write_number(number, k) for concrete k on an ARBITRARY writer state: raises BitIOError iff number is outside
+    [0, 2^k) (writer untouched), otherwise appends exactly the k little-endian bits of number to the bit stream
+    (stated on the byte array, so any correct way of producing the bytes satisfies it)"""
+    qualname = 'BitWriter.write_number'
 
     def __init__(self, bits):
         self.bits = bits
-        self.name = f'BitWriter.write_number/range/{bits}bits'
+        self.name = f'BitWriter.write_number/{bits}bits'
 
     def setup(self, it, ctx):
-        m = it.load_module('cirbo.circuits_db.bit_io')
+        args, kw, st = Write.setup(self, it, ctx)
         num = z3.Int('number')
-        calls = []
-        o = Obj(m.env['BitWriter'], {'_bytearray': Bytes(z3.IntVal(0), lambda j: z3.IntVal(0)), '_bit_pos': 8})
-        it.contracts[BIO + '::BitWriter.write'] = lambda it_, fv, args, kwargs: calls.append(args[1])
-        return [o, Sym(num), self.bits], {}, {'num': num, 'calls': calls}
+        st['num'] = num
+        return [args[0], Sym(num), self.bits], {}, st
 
     def post(self, it, ctx, result, st):
-        num = st['num']
-        yield ('accepted-only-in-range', z3.And(num >= 0, num < 2 ** self.bits))
-        yield ('writes-bits-count', z3.BoolVal(len(st['calls']) == self.bits))
-        for i, c in enumerate(st['calls']):
-            t = it.truth(c)
-            t = z3.BoolVal(t) if isinstance(t, bool) else t
-            yield (f'bit{i}-little-endian', t == ((num / (2 ** i)) % 2 == 1))
+        o, n, ef, pos, num = st['o'], st['n'], st['ef'], st['pos'], st['num']
+        k = self.bits
+        ba = o.fields['_bytearray']
+        pos1 = it.int_term(o.fields['_bit_pos'])
+        T0 = 8 * (n - 1) + pos
+        T1 = 8 * (ba.n - 1) + pos1
+        yield ('accepted-only-in-range', z3.And(num >= 0, num < 2 ** k))
+        yield ('k-more-bits', T1 == T0 + k)
+        yield ('RI/pos-range', z3.And(pos1 >= 1, pos1 <= 8, z3.Implies(ba.n == 0, pos1 == 8)))
+        for q in range(1, 9):
+            yield (f'RI/high-bits-zero/{q}', z3.Implies(z3.And(ba.n > 0, pos1 == q), z3.And(ba.elem(ba.n - 1) >= 0, ba.elem(ba.n - 1) < 2 ** q)))
+        j = ctx.fresh(I, 'j')
+        m = ctx.fresh(I, 'm')
+        yield ('earlier-bits-unchanged', z3.Implies(z3.And(j >= 0, m >= 0, m < 8, 8 * j + m < T0), bitof(ba.elem(j), m) == bitof(ef(j), m)))
+        for i in range(k):
+            yield (f'bit{i}-little-endian', z3.Implies(z3.And(j >= 0, m >= 0, m < 8, 8 * j + m == T0 + i), bitof(ba.elem(j), m) == (num / (2 ** i)) % 2), {'witness': 'number-bits'})
 
     def on_raise(self, it, ctx, exc, st):
         nme = exc.cls.name if isinstance(exc, Obj) else repr(exc)
         num = st['num']
         if nme == 'BitIOError':
             yield ('rejected-only-out-of-range', z3.Or(num < 0, num >= 2 ** self.bits), {'raised': nme})
+            ba = st['o'].fields['_bytearray']
+            yield ('writer-untouched', z3.And(ba.n == st['n'], it.int_term(st['o'].fields['_bit_pos']) == st['pos']))
         else:
             yield ('no-other-raise', z3.BoolVal(False), {'raised': nme, 'witness': 'raises-' + nme})
 
@@ -197,9 +207,8 @@ def run(rep):
     pv = Prover(rep, it, 'C16')
     pv.run_contract(Write())
     pv.run_contract(Read())
-    for bits in range(0, 10):
-        it.contracts.clear()
-        pv.run_contract(WriteNumberRange(bits))
+    for bits in (0, 1, 2, 3, 7, 8, 9, 12):
+        pv.run_contract(WriteNumber(bits))
     it.contracts.clear()
     table_obligations(rep, pv, it)
     x = z3.Int('x')
